@@ -306,10 +306,9 @@ def record_streams(addr):
             out[name] = data_frames(tap, 0)
         if cid == REC_CTX_ID:
             # 'ctxdup': a create whose id collides with a live context (the healthy party's on the replay servers)
-            with Tap() as tap:
+            with Tap() as tap:          # only the bytes matter here; whether it is refused is for the judge, not for the tap
                 try:
                     RemoteContext(cid, host=addr, target=tg.ctx_fun, kwargs={'tok': 9})
-                    raise MachineryError('recording: a duplicate context registration was not refused')
                 except ValueError:
                     pass
                 out['ctxdup'] = data_frames(tap, 0)
